@@ -20,6 +20,8 @@ import Driver.CtxDrv
 import Driver.JoinDrv
 import Driver.PlaceDrv
 import Driver.LifeDrv
+import Driver.IqDrv
+import Driver.BulkDrv
 /-! `driver <model>`: reads harness output (cases) on stdin, prints one verdict line per case. -/
 open Driver
 
@@ -47,6 +49,8 @@ def dispatch (model : String) (c : Case) : String :=
   | "join" => JoinDrv.runCase c
   | "place" => PlaceDrv.runCase c
   | "life" => LifeDrv.runCase c
+  | "iq" => IqDrv.runCase c
+  | "bulk" => BulkDrv.runCase c
   | _ => s!"case {c.id} reject 0 unknown-model-{model}"
 
 def main (args : List String) : IO UInt32 := do
